@@ -163,6 +163,8 @@ type Env struct {
 	Init     *InitSpec
 	Log      []LogEntry
 	LogFile  *os.File
+	// DecodeNotes: first few store records the snapshot decoder could not interpret (makes a verdict inconclusive)
+	DecodeNotes []string
 	Monitors []Monitor
 	Viol     []Violation
 	Stats    map[string]int64
@@ -279,6 +281,13 @@ func (e *Env) finish(c *Call) {
 		c.Post = e.snap()
 	}
 	e.last = c.Post
+	if c.Post != nil && c.Post.View != nil && len(c.Post.View.DecodeErr) > 0 {
+		// records the harness cannot interpret: whatever the monitors conclude about this state is incomplete
+		e.Stats["snapshot.decode_errors"] += int64(len(c.Post.View.DecodeErr))
+		if len(e.DecodeNotes) < 3 {
+			e.DecodeNotes = append(e.DecodeNotes, fmt.Sprintf("after %s@%d: %s", c.Kind, c.H, c.Post.View.DecodeErr[0]))
+		}
+	}
 	for _, m := range e.Monitors {
 		m.OnCall(e, c)
 	}
